@@ -90,6 +90,18 @@ func (_this *Context) UnstackBuilder() Builder {
 	return oldTop
 }
 
+// Take a builder off the stack. It is usually on top, but the object it was
+// waiting for may already have stacked builders of its own above it.
+func (_this *Context) RemoveBuilder(builder Builder) {
+	for i := len(_this.builderStack) - 1; i >= 0; i-- {
+		if _this.builderStack[i] == builder {
+			_this.builderStack = append(_this.builderStack[:i], _this.builderStack[i+1:]...)
+			_this.updateCurrentBuilder()
+			return
+		}
+	}
+}
+
 func (_this *Context) SwapBuilder(builder Builder) Builder {
 	oldTop := _this.CurrentBuilder
 	_this.builderStack = _this.builderStack[:len(_this.builderStack)-1]
